@@ -138,6 +138,23 @@ def check_project(chk, name, fname, content, fmt, opt, model, kind):
             table = re.search(r"A_Table\[NSPECIES\] = \{(.*?)\};", txt, re.S)
             order = [x.strip()[2:] for x in table.group(1).split(",") if x.strip()] if table else []
             good = len(order) == NS and all(spec.get("IDX_" + a) == i for i, a in enumerate(order)) and {a for a, _ in defs} == set(order) and all(IDENT.match("A_" + a) for a, _ in defs)
+            # the other files of the patch name each species' field by its alias (<alias>Num, <alias>Density,
+            # IDX_<alias>): every species must be there under the alias the macros use
+            known = {k[4:] for k in spec if not re.fullmatch(r"[eE]M", k[4:])}  # Enzo has its own electron field (DeNum / ElectronDensity)
+            for root, _, fs in os.walk(os.path.join(pdir, "enzo")):
+                for fn in fs:
+                    try:
+                        ptxt = open(os.path.join(root, fn)).read()
+                    except (UnicodeDecodeError, OSError):
+                        continue
+                    for suffix, found in (("Num", set(re.findall(r"\b(\w+?)Num\b", ptxt))), ("Density", set(re.findall(r"\b(\w+?)Density\b", ptxt)))):
+                        if len(found & known) >= max(1, len(known) // 2) and known - found:
+                            good = False
+                            chk.violation(f"{tag}:enzo-fields:{fn}:{suffix}", f"patch file {fn} has no <alias>{suffix} field for the species {sorted(known - found)[:6]} (it names them differently from the index macros)", {"case": name, "file": fn, "missing": sorted(known - found), "foreign": sorted(x for x in found if x not in known)[:20]})
+                    undefined = {x for x in re.findall(r"\bIDX_(\w+)\b", ptxt) if "IDX_" + x not in macros}
+                    if undefined:
+                        good = False
+                        chk.violation(f"{tag}:enzo-macros:{fn}", f"patch file {fn} uses index macros that naunet_macros.h does not define: {sorted(undefined)[:6]}", {"case": name, "file": fn, "undefined": sorted(undefined)})
             if good:
                 chk.ok(f"{tag}:enzo-tables")
             else:
